@@ -280,8 +280,15 @@ class QintImp(int, Qtype):
     @classmethod
     def sub(cls, tleft: TExp, tright: TExp) -> TExp:
         """Subtract two Qint"""
-        an = cls.bitwise_not(cls.fill(tleft))
-        su = cls.add(an, cls.fill(tright))
+        tleft_e = cls.fill(tleft)
+        tright_e = cls.fill(tright)
+
+        # Extend the left operand before complementing it
+        if len(tleft_e[1]) < len(tright_e[1]):
+            tleft_e = cast(Qtype, tright_e[0]).fill(tleft_e)
+
+        an = cls.bitwise_not(tleft_e)
+        su = cls.add(an, tright_e)
         return cls.bitwise_not(su)
 
     @classmethod
